@@ -34,7 +34,7 @@ Oracle (reference cell model computed here from the axes alone)
   origin are +-(distance to the neighbour of the origin)/2 on every grid); outer edges = axis end points.
   (i)   tiling, asserted on the cells the library itself uses (arguments of mass / integrate, _cell_bounds): every state
         strictly inside its cell; right edge of cell k = left edge of cell k+1 (4 ulp); outer edges = axis end points;
-        inner edges = (mid(-h,0), mid(0,h)); each library cell = reference cell (4 ulp; on the probability-step
+        inner edges = (mid(-h,0), mid(0,h)) = (-grid.h/2, grid.h/2); each library cell = reference cell (4 ulp; on the probability-step
         grid, whose own root finder stops at xtol = 1e-10, within 1e-9 + 16 ulp of lambda / density at the boundary); the blocks of compute_intensity_of_jumps are
         exactly the 3^d - 1 products of {left part, central cell, right part} other than the all-central one.
   (ii)  rate of a state = integral of the density nu.__call__ of the model the user passed (not the process's copy) over the
@@ -411,6 +411,20 @@ def _tiling_1d(sh, route, tag, cells, axis, o, bounds, bounds_ok, btol):
     return idx
 
 
+def _central_cell_is_h(sh, tag, grid, centrals):
+    """the excluded central cell is the cube of side grid.h centred at the origin (CTMCGrid: "the hyper-cube of size h
+    centered in the origin of the grid is taken off"; the small-jump variance of the chain is computed on (-h/2, h/2))"""
+    h = float(getattr(grid, "h", math.nan))
+    if not math.isfinite(h):
+        sh.count("grid-h-not-observable")
+        return
+    for i, (lo, hi) in enumerate(centrals):
+        sh.count("evaluations")
+        if abs(lo + 0.5 * h) > 4 * EPS * h or abs(hi - 0.5 * h) > 4 * EPS * h:
+            sh.violation(f"C01:tiling:grid:central-cell-is-not-the-cube-of-side-h:{tag}",
+                         f"axis {i}: central cell of the reference cell model ({lo!r}, {hi!r}), grid.h = {h!r}", {"axis": i, "central": [lo, hi], "h": h})
+
+
 def _chain1d(sh, case):
     from rpylib.distribution import samplingfactory as SF
     from rpylib.distribution.sampling import SamplingMethod
@@ -436,6 +450,7 @@ def _chain1d(sh, case):
     equal_mass = gk == "probability"
     bounds, bounds_ok = _ref_bounds(axis, o, nu0, equal_mass)
     idx = [k for k in range(n) if k != o]
+    _central_cell_is_h(sh, tag, grid, [(bounds[o], bounds[o + 1])])
     sh.cls(f"grid:{gk}")
     sh.cls(f"model:{fam}{':exp' if case['model'].get('exp') else ''}")
     sh.cls(f"refine:{case['grid'].get('refine', 0)}")
@@ -701,6 +716,18 @@ def _chain1d(sh, case):
         sh.nontriv()
     sh.count("states", len(idx))
     sh.count("configurations")
+    # determinism self-check on 1 case in 8: everything rebuilt from the case dict, observations compared bit for bit
+    if int(core.digest(case), 16) % 8 == 0 and "q-vector" in routes:
+        model2 = A.make_model(case["model"])
+        grid2 = A.make_grid(case["grid"], model2, 1)
+        meth2 = next(iter(procs))
+        p2 = MarkovChainProcess(model=model2, method=SamplingMethod[meth2], grid=grid2)
+        q2 = np.asarray(SF.create_q_vector(p2.model.levy_triplet.nu, grid2), dtype=float)
+        same = (float(p2.intensity_of_jumps).hex() == lam.hex() and [float(x).hex() for x in grid2.axes[0]] == [x.hex() for x in axis]
+                and [float(q2[k]).hex() for k in idx] == [routes["q-vector"][k].hex() for k in idx])
+        sh.count("determinism-reruns")
+        if not same:
+            sh.violation("NONDETERMINISM", f"rebuilding {tag} from its case dict gave a different axis / intensity / q-vector", None)
     if case["grid"].get("refine", 0) == 0 and n <= 7:
         sh.sample({"case": case, "axis": axis, "reference_bounds": bounds, "intensity": lam,
                    "rates": {str(k): routes.get("q-vector", {}).get(k) for k in idx}, "quadrature": {str(k): quad[k] for k in idx}})
@@ -765,6 +792,7 @@ def _copula(sh, case):
         sh.note(f"grid not strictly increasing with 0 at the origin index (C13's business): {tag}")
         return
     grid, model = ctx.grid, ctx.model
+    _central_cell_is_h(sh, tag, grid, [(bs[o], bs[o + 1]) for bs, o in zip(ctx.bounds, ctx.orig)])
     sh.cls(f"grid:{gk}:d={d}")
     sh.cls(f"copula:{ck}:d={d}")
     sh.cls(f"refine:{case['grid'].get('refine', 0)}:d={d}")
@@ -979,6 +1007,15 @@ def _copula(sh, case):
         sh.nontriv()
     sh.count("states", len(states))
     sh.count("configurations")
+    if int(core.digest(case), 16) % 8 == 0 and "model.mass" in routes and len(states) <= 1000:
+        ctx2 = _CopulaCtx(sh, case)
+        with _no_vol_adjustment_pool():
+            p2 = MarkovChainLevyCopula(levy_copula_model=ctx2.model, grid=ctx2.grid, method=SamplingMethod[next(iter(procs))])
+        same = (float(p2.intensity_of_jumps).hex() == lam.hex() and ctx2.axes == ctx.axes
+                and all(float(p2.model.mass(*ctx2.cell(idx))).hex() == routes["model.mass"][idx].hex() for idx in states))
+        sh.count("determinism-reruns")
+        if not same:
+            sh.violation("NONDETERMINISM", f"rebuilding {tag} from its case dict gave different axes / intensity / cell masses", None)
     if len(states) <= 8:
         sh.sample({"case": case, "axes": ctx.axes, "intensity": lam, "reference_masses": {str(k): v for k, v in ref.items()}})
 
@@ -1084,6 +1121,25 @@ def _density(sh, case):
 
 
 # ----------------------------------------------------------------------------------------------------------------------
+
+REQUIRED_CLASSES = (
+    [f"method:1d:{m}" for m in METHODS_1D] + [f"method:{d}d:{m}" for d in (2, 3) for m in METHODS_ND]
+    + [f"grid:{g}" for g in ("uniform", "fixed", "geometric", "geometric-bounds", "probability", "credit")]
+    + [f"grid:{g}:d={d}" for d in (2, 3) for g in ("uniform", "fixed", "credit")]
+    + [f"refine:{k}" for k in range(4)] + [f"refine:{k}:d={d}" for d in (2, 3) for k in range(2)]
+    + ["measure:finite-activity", "measure:infinite-activity-finite-variation", "measure:infinite-variation",
+       "axes:identical", "axes:different-per-coordinate", "density:same-signs:fixed", "density:opposite-signs:fixed"]
+)
+
+
+def post(total, tier):
+    """coverage self-check: a run that skipped a whole class of configurations must not pass silently"""
+    for c in REQUIRED_CLASSES:
+        if c not in total.classes:
+            total.violation(f"C01:self-check:coverage:class-not-visited:{c}", f"no configuration of class {c} was checked in tier {tier}", None)
+    if total.counters.get("malformed-grid-skipped", 0):
+        total.note(f"{total.counters['malformed-grid-skipped']} configurations skipped because the grid was malformed (see C13)")
+
 
 def check_case(sh, case):
     with warnings.catch_warnings():
